@@ -465,6 +465,7 @@ func main() {
 			}
 		}
 	}
+	bigSets(r)
 	r.Sample(map[string]any{"A": "sync2.Set[0 2] via [Add(0) Add(1) Len Remove(1) Add(2)]", "B": "maps.Set[1 2]", "ops": "Union Intersect SetDiff SymDiff AddSet RemoveSet CartesianProduct"})
 	r.Set("states", int64(states)+e.Inputs)
 	r.Set("transitions", int64(trans)+e.Calls)
@@ -484,4 +485,143 @@ func lastOps(p []seqmc.Op) string {
 		s += o.Name[:1]
 	}
 	return s
+}
+
+// bigSets: the same algebra on sets of 9..130 elements (map growth, promotion thresholds of the
+// concurrent map, any shortcut behind a size test), in all four implementation pairings.
+func bigSets(r *ev.Run) {
+	mk := func(k kind, members map[int]bool, churn bool) sets.Set[int] {
+		s := newSet(k)
+		var keys []int
+		for v := range members {
+			keys = append(keys, v)
+		}
+		sort.Ints(keys)
+		for _, v := range keys {
+			s.Add(v)
+			if churn { // leave deleted / expunged entries behind
+				s.Add(v + 100000)
+				s.Has(v + 5)
+				s.Remove(v + 100000)
+			}
+		}
+		if churn {
+			s.Len()
+		}
+		return s
+	}
+	same := func(s sets.Set[int], want map[int]bool) string {
+		if s.Len() != len(want) {
+			return fmt.Sprintf("Len = %d, want %d", s.Len(), len(want))
+		}
+		sl := s.Slice()
+		if len(sl) != len(want) {
+			return fmt.Sprintf("Slice has %d values, want %d", len(sl), len(want))
+		}
+		seen := map[int]bool{}
+		for _, v := range sl {
+			if !want[v] || seen[v] {
+				return fmt.Sprintf("Slice contains %d (unexpected or twice)", v)
+			}
+			seen[v] = true
+		}
+		n := 0
+		s.Range(func(v int) bool { n++; return want[v] })
+		if n != len(want) {
+			return fmt.Sprintf("Range made %d calls, want %d", n, len(want))
+		}
+		for v := range want {
+			if !s.Has(v) {
+				return fmt.Sprintf("Has(%d) = false", v)
+			}
+		}
+		if s.Has(-7) {
+			return "Has(-7) = true"
+		}
+		return ""
+	}
+	calls := 0
+	for _, n := range []int{9, 17, 33, 65, 130} {
+		A, B := map[int]bool{}, map[int]bool{}
+		for i := 0; i < n; i++ {
+			A[i*2] = true // evens
+			B[i*3] = true // multiples of 3
+		}
+		op := func(f func(a, b bool) bool) map[int]bool {
+			out := map[int]bool{}
+			for v := 0; v <= 3*n; v++ {
+				if f(A[v], B[v]) {
+					out[v] = true
+				}
+			}
+			return out
+		}
+		for _, ka := range []kind{kMaps, kSync} {
+			for _, kb := range []kind{kMaps, kSync} {
+				for _, churn := range []bool{false, true} {
+					type bin struct {
+						name string
+						f    func(a, b sets.Set[int]) sets.Set[int]
+						want map[int]bool
+					}
+					for _, o := range []bin{
+						{"Union", func(a, b sets.Set[int]) sets.Set[int] { return a.Union(b) }, op(func(a, b bool) bool { return a || b })},
+						{"Intersect", func(a, b sets.Set[int]) sets.Set[int] { return a.Intersect(b) }, op(func(a, b bool) bool { return a && b })},
+						{"SetDiff", func(a, b sets.Set[int]) sets.Set[int] { return a.SetDiff(b) }, op(func(a, b bool) bool { return a && !b })},
+						{"SymDiff", func(a, b sets.Set[int]) sets.Set[int] { return a.SymDiff(b) }, op(func(a, b bool) bool { return a != b })},
+					} {
+						sa, sb := mk(ka, A, churn), mk(kb, B, churn)
+						res := o.f(sa, sb)
+						calls++
+						rp := map[string]any{"family": "big-sets", "n": n, "op": o.name, "impl_a": int(ka), "impl_b": int(kb), "churn": churn}
+						if m := same(res, o.want); m != "" {
+							r.Report(ev.Violation{Sig: "family|" + o.name + "|result", Msg: fmt.Sprintf("%s of two %d-element sets (impl %d/%d, churn %v): %s", o.name, n, ka, kb, churn, m), Replay: rp})
+						}
+						if m := same(sa, A); m != "" {
+							r.Report(ev.Violation{Sig: "family|" + o.name + "|operand-changed", Msg: fmt.Sprintf("%s changed its receiver (%d elements): %s", o.name, n, m), Replay: rp})
+						}
+						if m := same(sb, B); m != "" {
+							r.Report(ev.Violation{Sig: "family|" + o.name + "|operand-changed", Msg: fmt.Sprintf("%s changed its argument (%d elements): %s", o.name, n, m), Replay: rp})
+						}
+						res.Add(-1)
+						res.Remove(0)
+						if same(sa, A) != "" || same(sb, B) != "" {
+							r.Report(ev.Violation{Sig: "family|" + o.name + "|shares-state", Msg: fmt.Sprintf("mutating the result of %s changed an operand (%d elements)", o.name, n), Replay: rp})
+						}
+					}
+					sa, sb := mk(ka, A, churn), mk(kb, B, churn)
+					rp := map[string]any{"family": "big-sets", "n": n, "impl_a": int(ka), "impl_b": int(kb), "churn": churn}
+					if got, want := sa.AddSet(sb), len(op(func(a, b bool) bool { return b && !a })); got != want {
+						r.Report(ev.Violation{Sig: "family|AddSet|count", Msg: fmt.Sprintf("AddSet on %d-element sets returned %d, want %d", n, got, want), Replay: rp})
+					}
+					if m := same(sa, op(func(a, b bool) bool { return a || b })); m != "" {
+						r.Report(ev.Violation{Sig: "family|AddSet|effect", Msg: fmt.Sprintf("after AddSet (%d elements): %s", n, m), Replay: rp})
+					}
+					sa = mk(ka, A, churn)
+					if got, want := sa.RemoveSet(sb), len(op(func(a, b bool) bool { return a && b })); got != want {
+						r.Report(ev.Violation{Sig: "family|RemoveSet|count", Msg: fmt.Sprintf("RemoveSet on %d-element sets returned %d, want %d", n, got, want), Replay: rp})
+					}
+					if m := same(sa, op(func(a, b bool) bool { return a && !b })); m != "" {
+						r.Report(ev.Violation{Sig: "family|RemoveSet|effect", Msg: fmt.Sprintf("after RemoveSet (%d elements): %s", n, m), Replay: rp})
+					}
+					c := mk(ka, A, churn).Clone()
+					if m := same(c, A); m != "" {
+						r.Report(ev.Violation{Sig: "family|Clone", Msg: fmt.Sprintf("Clone of a %d-element set: %s", n, m), Replay: rp})
+					}
+					if n <= 33 {
+						prod := sets.CartesianProduct(mk(ka, A, churn), mk(kb, B, false))
+						seen := map[[2]int]bool{}
+						for _, p := range prod {
+							seen[[2]int{p.A, p.B}] = true
+						}
+						if len(prod) != n*n || len(seen) != n*n {
+							r.Report(ev.Violation{Sig: "family|CartesianProduct", Msg: fmt.Sprintf("CartesianProduct of two %d-element sets: %d pairs, %d distinct", n, len(prod), len(seen)), Replay: rp})
+						}
+					}
+					calls += 5
+				}
+			}
+		}
+	}
+	r.Set("large_size_family_calls", calls)
 }
